@@ -28,7 +28,7 @@ COMPONENTS = {"real": ["setigen.voltage.data_stream.DataStream", "setigen.voltag
 ASSUMPTIONS = ["numpy Generator.standard_normal is stream-consistent (n1 then n2 draws == n1+n2 draws); asserted at start-up",
                "at most one noise source per stream (two sources share one generator, so their draws legitimately interleave per request)",
                "custom sources are pure functions of the time array"]
-PROBES = ["other_rate_stream_used_same_request_lengths_before", "background_stream_subclass", "chirp_parameters_given_as_quantities", "source_returns_view_of_own_array", "dyadic_bitwise", "request_len_1", "control_set_time", "control_add_time", "control_reset_start",
+PROBES = ["more_than_128_requests_on_one_object", "other_rate_stream_used_same_request_lengths_before", "background_stream_subclass", "chirp_parameters_given_as_quantities", "source_returns_view_of_own_array", "dyadic_bitwise", "request_len_1", "control_set_time", "control_add_time", "control_reset_start",
           "control_update_noise", "complex_source", "descending_band", "antenna_two_pols", "negative_drift", "source_callback_error"]
 
 
@@ -104,6 +104,15 @@ def generate(rng, tier):
             ops.append({"op": "reset_start"})
         else:
             ops.append({"op": "update_noise", "m": rng.choice([1, 10, 100, 1000]), "pol": rng.randrange(pols)})
+    if rng.random() < (0.06 if tier == "quick" else 0.12):
+        # SCALE: hundreds of requests on one object (a clock re-derived every so many calls, a counter that wraps, a
+        # buffer that fills are invisible in a dozen requests), optionally after an update_noise (which draws through
+        # get_samples itself and must leave no trace)
+        at = rng.randrange(len(ops) + 1)
+        burst = [{"op": "get", "n": rng.choice([1, 2, 3, 5, 8, 16, 31, 64]), "rep": rng.choice([130, 200, 260, 300, 520])}]
+        if rng.random() < 0.6:
+            burst.insert(0, {"op": "update_noise", "m": rng.choice([10, 1000]), "pol": rng.randrange(pols)})
+        ops[at:at] = burst
     cfg = {"kind": kind, "fs": fs, "fch1": fch1, "ascending": ascending, "t_start": t_start,
            "seed": gen_seed(rng), "pols": pols, "dyadic": dyadic, "sources": srcs}
     if kind == "stream" and rng.random() < 0.3:
@@ -114,8 +123,20 @@ def generate(rng, tier):
     return sc
 
 
+def _expanded(ops):
+    for op in ops:
+        for _ in range(op.get("rep", 1)):
+            yield op
+
+
 def simplify(sc):
     cfg = sc["cfg"]
+    for j, op in enumerate(sc["ops"]):
+        if op.get("rep", 1) > 1:
+            for r in (op["rep"] // 2, op["rep"] * 3 // 4, op["rep"] - 1):
+                c = copy.deepcopy(sc)
+                c["ops"][j]["rep"] = max(r, 1)
+                yield c
     for p, s in enumerate(cfg["sources"]):
         if s["noise"] is not None:
             c = copy.deepcopy(sc)
@@ -418,7 +439,7 @@ def execute(sc, ctx):
         pend_n = 0
 
     epoch_ts = [[] for _ in refs]
-    for op in sc["ops"]:
+    for op in _expanded(sc["ops"]):
         ctx.op(op["op"])
         kind = op["op"]
         if kind == "get" and last_ctrl == "fault":
@@ -481,6 +502,8 @@ def execute(sc, ctx):
                 ref.last_epoch_ts = np.concatenate(epoch_ts[p])
                 ref.last_ttol = t_tol
             _clock_checks(ctx, top, streams, refs, is_ant, dy, False)
+            if ngets == 129:
+                ctx.hit("more_than_128_requests_on_one_object")
             if ngets >= 2:
                 ctx.nontrivial = True
             last_ctrl_was = last_ctrl
